@@ -115,9 +115,7 @@ pub fn run(ctx: &Ctx) -> Rep {
     // ---- two-call histories: word->bit of a card right after any word, and the reverse ----------------------
     {
         let cards = model::words52();
-        let stride: u32 = if ctx.escalate && !ctx.smoke() {
-            if ctx.leg == "checked" { 64 } else { 8 }
-        } else if ctx.leg == "checked" {
+        let stride: u32 = if ctx.leg == "checked" {
             ctx.pick(1, 512, 8) as u32
         } else {
             ctx.pick(1, 256, 1) as u32
